@@ -123,9 +123,10 @@ pub fn run_child(ctx: &mut Ctx) {
         let inner = Arc::new(tp.external_run_async_task(async move { LocalClient::new(&xd, None) }).unwrap().unwrap());
         let ctl = Arc::new((Mutex::new(Ctl::default()), Condvar::new()));
         // fault plan: which task ids fail (by spawn order), whether a shard upload fails; scenario 0..: each single put in turn
-        let fail_task: Vec<usize> = if sc % 3 == 0 { vec![(sc / 3) as usize % 6] } else if rng.chance(1, 3) { vec![] } else { (0..rng.range(1, 3)).map(|_| rng.below(8) as usize).collect() };
         let many_shards = std::env::var("HF_XET_MDB_SHARD_MIN_TARGET_SIZE").ok().and_then(|v| v.parse::<u64>().ok()).map_or(false, |v| v < 100_000);
-        if rng.chance(1, if many_shards { 2 } else { 6 }) { ctl.0.lock().unwrap().fail_shard = Some(rng.below(if many_shards { 5 } else { 2 }) as usize); }
+        // (with several shards per session most scenarios have no xorb fault, so that the shard uploads are reached)
+        let fail_task: Vec<usize> = if many_shards && rng.chance(3, 4) { vec![] } else if sc % 3 == 0 { vec![(sc / 3) as usize % 6] } else if rng.chance(1, 3) { vec![] } else { (0..rng.range(1, 3)).map(|_| rng.below(8) as usize).collect() };
+        if rng.chance(if many_shards { 3 } else { 1 }, if many_shards { 4 } else { 6 }) { ctl.0.lock().unwrap().fail_shard = Some(rng.below(if many_shards { 4 } else { 2 }) as usize); }
         let client: Arc<dyn Client + Send + Sync> = Arc::new(FaultClient { inner, ctl: ctl.clone() });
         take_events();
         let (cfg2, tp2) = (config.clone(), tp.clone());
@@ -199,6 +200,7 @@ pub fn run_child(ctx: &mut Ctx) {
         if last_ne { match outcome_of(task_hash.last().unwrap()) { Some(ok) => rest.push(if ok { '1' } else { '0' }), None => rest.push('1') } }
         let shards_started = g.order.iter().any(|o| o == "shard-start");
         let shard_failed = g.fail_shard.map(|k| k < g.shard_calls).unwrap_or(false);
+        let shard_calls_n = g.shard_calls;
         trace.push(format!("f{}:{}:{}", last_ne as u8, if rest.is_empty() { "-".to_string() } else { rest.clone() }, (!shard_failed) as u8));
         if fin.is_err() { api_errors += 1; any_api_error = true; }
         let replay = format!("{{\"suite\":\"session_faults\",\"seed\":{},\"scenario\":{},\"trace\":\"{}\"}}", ctx.seed, sc, trace.join(","));
@@ -237,6 +239,7 @@ pub fn run_child(ctx: &mut Ctx) {
         ctx.op(&format!("up.obs ev={}", trace.join(",")), &format!("final={fin_s} apiErrors={api_errors} shards={} tasks={}", shards_started as u8, if fin.is_ok() { tasks } else { "*".to_string() }));
         ctx.stat(if any_put_failed { "scenarios_with_put_failure" } else { "scenarios_without_put_failure" });
         if shard_failed { ctx.stat("scenarios_with_shard_failure"); }
+        ctx.stat(&format!("shard_upload_calls_{}", shard_calls_n.min(9)));
         ctx.stat(if fin.is_ok() { "finalize_ok" } else { "finalize_err" });
         ctx.stat_add("tasks", task_hash.len() as u64);
         ctx.case(fnv(trace.join(",").as_bytes()), task_hash.len() >= 2);
